@@ -691,6 +691,15 @@ def check_attrs(rec):
         cmp("iteration", lambda: [decode(r, elem) for r in a], exp["iter"])
         cmp("dtype", lambda: str(a.dtype), str(np.concatenate(rows).dtype))
         cmp("flatten-shape", lambda: list(a.flatten().shape), [exp["size"]])
+
+        # np.concatenate(rows) is a new array: what a caller does to the flat copy (sort it, mask it, scale it in
+        # place) must not show in any later read
+        def scribbled():
+            f = a.flatten()
+            f[...] = -12345
+            np.sort(f)
+            return [decode(r, elem) for r in a]
+        cmp("flatten-is-a-copy", scribbled, exp["iter"])
     # floats: dtype attribute only
     from enspara import ra
     fa = ra.RaggedArray([r.astype(float) for r in rows])
@@ -1024,7 +1033,8 @@ def replay(ctx, path):
                "shape": lambda: [NONE if v is None else int(v) for v in a.shape], "size": lambda: int(a.size),
                "flatten": lambda: decode(a.flatten() if elem == "scalar" else np.asarray(a.flatten()).reshape(-1, 2), elem),
                "iteration": lambda: [decode(r, elem) for r in a], "dtype": lambda: str(a.dtype),
-               "flatten-shape": lambda: list(a.flatten().shape)}[name]
+               "flatten-shape": lambda: list(a.flatten().shape),
+               "flatten-is-a-copy": lambda: (a.flatten().__setitem__(Ellipsis, -12345), [decode(r, elem) for r in a])[1]}[name]
         try:
             got = get()
         except Exception as ex:
